@@ -323,8 +323,12 @@ pub fn run(cfg: &Cfg) -> Outcome {
     for i in [0usize, n_full.saturating_sub(1), items.len() / 2, items.len() - 1] {
         acc.sample(json!({"expr": items[i].text, "full_window": items[i].full}));
     }
+    let skipped = acc.get("long_horizon_instants_left_to_full_window_list") + acc.get("long_horizon_instants_skipped_after_budget");
     let mut o = Outcome::new("model_checking", acc);
     o.exhaustive = true;
+    if skipped > 0 {
+        o.caps_hit.push(format!("{skipped} long-horizon next_change queries were not run (block mode of the quick tier leaves horizons over 800 days to the full-window list; elsewhere the deterministic schedule_at budget was used up): state() was still checked nowhere less"));
+    }
     o.cov("family_size", json!(items.len()));
     o.cov("full_window_expressions", json!(n_full));
     o.cov("rule", json!("for every expression × context: every derived instant (P boundaries of the window × {−1min, −1s, 0, +1ms, +1s, +30s, +59.999s, +1min}, every 7th (quick: 97th) minute of six fixed days, 16 instants around and far outside both ends of the supported range) is queried on the real state / is_open / is_closed / is_unknown / next_change and compared with the pointwise oracle P (kind of the run containing t; end of that run, None iff it reaches 10000-01-01); oracle-free relations: next_change > t, < DATE_END, equal for all t of one run. states = instants, transitions = next_change calls; block mode only requires answers beyond the block edge to be no earlier than the edge. next_change walks day by day where selectors give no hint: queries stop for an expression once a deterministic budget of schedule_at calls (H1 counter) is used up (counted)"));
